@@ -119,6 +119,64 @@ def rule_row_fresh(db: ProgramDB) -> List[Instance]:
                                 line=y.lineno))
     if n == 0:
         out.append(inst("ROW-FRESH", UNDECIDED, "", "rows", "no extended-and-yielded row found"))
+    out.extend(_accumulating_binding_params(db))
+    return out
+
+
+ACCUMULATE_EXCEPTIONS = {
+    ("Union.evaluate_right", "sources"):
+        "every row of the right operand binds the same variables, so the dict accumulated over the iterations equals a fresh "
+        "merge per row; both callers hand it a dict they do not read afterwards (a fresh copy, or the incoming binding at the "
+        "end of the generator)",
+}
+
+
+def _accumulating_binding_params(db: ProgramDB) -> List[Instance]:
+    """The binding a generator was called with is not extended in place, iteration after iteration, inside a loop over an
+    evaluation stream and then handed on: what one iteration adds (the value of a selected variable, of an argument) would
+    still be bound in the next one, and an expression that finds itself bound is not enumerated again."""
+    from .binding import binding_params, names_in
+    out = []
+    se = db.cls("SymbolicExpression")
+    model = site_model(db)
+    for c in sorted([se] + se.all_subclasses(), key=lambda k: k.qualname):
+        for m in c.methods.values():
+            if not m.is_generator:
+                continue
+            bps = binding_params(m)
+            if not bps:
+                continue
+            for loop in [l for l in model.stream_loops(m) if isinstance(l, ast.For)]:
+                body_nodes = [x for st in loop.body for x in ast.walk(st)]
+                for bp in sorted(bps):
+                    mut = None
+                    for x in body_nodes:
+                        if isinstance(x, ast.Call) and isinstance(x.func, ast.Attribute) and isinstance(x.func.value, ast.Name) \
+                                and x.func.value.id == bp and x.func.attr in ("update", "setdefault", "pop", "__setitem__"):
+                            mut = x
+                        if isinstance(x, (ast.Assign, ast.AugAssign)):
+                            for t in (x.targets if isinstance(x, ast.Assign) else [x.target]):
+                                if isinstance(t, ast.Subscript) and isinstance(t.value, ast.Name) and t.value.id == bp:
+                                    mut = x
+                    if mut is None:
+                        continue
+                    handed = [x for x in body_nodes if (isinstance(x, ast.Yield) and x.value is not None and bp in names_in(x.value))
+                              or (isinstance(x, ast.Call) and x is not mut and any(isinstance(a, ast.Name) and a.id == bp
+                                                                                   for a in list(x.args) + [k.value for k in x.keywords])
+                                  and not (dotted(x.func) or "") in ("copy", "dict", "copy.copy", "len", "isinstance"))]
+                    if not handed:
+                        continue
+                    key = f"{m.short}[`{bp}` extended in the loop over {unparse(loop.iter)[:36]}]"
+                    exc = ACCUMULATE_EXCEPTIONS.get((m.short, bp))
+                    if exc:
+                        out.append(inst("ROW-FRESH", INFO, m, key, f"frozen exception: {exc}", line=mut.lineno))
+                        continue
+                    out.append(inst("ROW-FRESH", VIOLATION, m, key,
+                                    f"`{unparse(mut)[:50]}` extends the binding this generator was called with in every iteration of "
+                                    f"the loop and hands it on (`{unparse(handed[0])[:60]}`): the bindings one iteration adds are still "
+                                    f"there in the next one, so an expression bound by the previous row is not enumerated again (with "
+                                    f"two unconstrained selected variables only the last value of the second one is paired with "
+                                    f"every value of the first but the first)", line=mut.lineno))
     return out
 
 
